@@ -70,7 +70,7 @@ def pick_size(rng, abstract, limit, impl):
     if abstract <= 1000:
         s = limit + rng.randint(-40, 40)          # around the truncation boundary
     elif abstract <= 3000:
-        s = rng.choice([513, 600, 1233, 1500, 3000, 4097, 5000])
+        s = rng.choice([513, 600, 1233, 1500, 3000, 4097, 5000, 9000, 12000])
     else:
         s = rng.randint(30000, 64000)
     if impl == "forward_udp":
@@ -228,6 +228,26 @@ def pair_case(rng, idx):
     return c
 
 
+def udp_big_cases(rng, idx0, n):
+    """answers far above the advertised size over UDP (up to near 65535 octets), both record shapes, direct and via ServeUDP:
+    the truncated reply is small when compressed but its uncompressed length ranges from < 1 k to > 8 k"""
+    out = []
+    for k in range(n):
+        size = [512, 1232, 4096, 4096, 65535][k % 5]
+        beh = {"cq": {"mal": "ok", "opt": {"k": "opt", "size": size, "do": rng.random() < 0.5, "ver": 0, "opts": []}},
+               "tr": "udp", "chain": ["up"],
+               "steps": [{"pos": 1, "kind": "up", "c": "ans", "m": {"rcode": 0, "size": 60000, "nrec": 900, "tc": False}, "o": []}],
+               "reply": {"k": "reply", "rcode": 0, "nopt": 1, "tc": True, "opts": [], "do": False}}
+        c = concretize(rng, idx0 + k, beh, "C03", force_mode=["direct", "udp"][(k // 5) % 2])
+        sc = c["nodes"][0]["script"]
+        c["nodes"][0]["impl"] = "terminal"
+        sc["fill"] = ["a", "a", ""][k % 3]
+        sc["size"] = rng.choice([9000, 20000, 40000, 64000])
+        c["expected"] = None
+        out.append(c)
+    return out
+
+
 def composite_case(rng, idx, prop):
     """chains around the composite components (dual_selector, fallback, forward) - validated by leg C only"""
     def up(c="ans", impl="terminal"):
@@ -257,9 +277,25 @@ def composite_case(rng, idx, prop):
             pre.append({"kind": k, "impl": rng.choice(["hosts", "black_hole", "arbitrary"]), "ans": rng.random() < 0.3})
     which = rng.choice(["prefer_ipv4", "prefer_ipv6", "fallback", "fallback"])
     if which == "fallback":
-        sub = {"kind": "sub", "impl": "fallback", "standby": rng.random() < 0.5,
-               "primary": [up(outcome())] if rng.random() < 0.7 else [{"kind": "ttl", "impl": "ttl", "arg": "9"}, up(outcome())],
-               "secondary": [up(outcome())]}
+        def branch(delay):
+            # option-copying plugins INSIDE the copied context: what they forward stays in the copy
+            seq = []
+            r = rng.random()
+            if r < 0.25:
+                seq.append({"kind": "fwdopt", "impl": "forward_edns0opt", "arg": "10"})
+            elif r < 0.45:
+                seq.append({"kind": "ecs", "impl": "ecs_handler", "forward": True})
+            elif r < 0.55:
+                seq.append({"kind": "ttl", "impl": "ttl", "arg": "9"})
+            u = up(outcome())
+            if delay:
+                u["script"]["delay"] = delay
+            seq.append(u)
+            return seq
+        standby = rng.random() < 0.5
+        sub = {"kind": "sub", "impl": "fallback", "standby": standby,
+               "primary": branch(12 if standby and rng.random() < 0.6 else 0),      # a standing-by secondary finishes first
+               "secondary": branch(0)}
         post = [{"kind": "ttl", "impl": "ttl", "arg": "3"}] if rng.random() < 0.5 else []
         nodes = pre + [sub] + post
     else:
